@@ -147,9 +147,34 @@ def header_fields(ctx, P):
     ctx.floor(P + ':header:conversion-floor', 'typed conversions of header octets in the config parsers', m, 2)
 
 
+def header_algorithms_used_as_given(ctx, P):
+    """The cipher and AEAD ids of the container header enter the key derivation and the associated data (`info`): changing the octet
+    in the header changes both, so the altered container fails.  That holds only while the decryptor uses the ids it was GIVEN: no
+    constructor of a stream decryptor replaces an id by a constant (an alias table `Private100 => Gcm` makes two different headers
+    decrypt alike).  Every algorithm argument of the AEAD set-up calls derives from the constructor's parameters only."""
+    n = 0
+    for p, r in sorted(ctx.f.bodies.items()):
+        if '::tests::' in p or not p.startswith('crypto::aead::'):
+            continue
+        b = ctx.wrap(r)
+        for i, t in b.calls(r'aead_setup_(rfc9580|gnupg)$'):
+            n += 1
+            bad = []
+            for k, a in enumerate(t['args']):
+                og = b.operand_origins(a)
+                subst = sorted(x for x in og if re.match(r'agg:crypto::(aead::AeadAlgorithm|sym::SymmetricKeyAlgorithm|aead::ChunkSize)::', x))
+                if subst:
+                    bad.append((k, subst[:3]))
+            ctx.check('%s:v2:algorithms-as-given:%s' % (P, p), 'origin', 'the algorithm ids handed to the AEAD set-up in %s are the ones the caller passed (no constant substituted)' % p.split('::')[-1],
+                      not bad, function=p, site=site(b, i),
+                      missing=None if not bad else 'argument %d of the set-up call can be the constant %s instead of the id from the header: two different headers derive the same key and associated data' % bad[0])
+    ctx.floor(P + ':v2:algorithms-as-given:floor', 'AEAD set-up calls', n, 3)
+
+
 def run(ctx):
     P = 'C03'
     header_fields(ctx, P)
+    header_algorithms_used_as_given(ctx, P)
     seipdv1(ctx, P)
     read_mode_is_callers_choice(ctx, P)
     seipdv2(ctx, P)
